@@ -909,3 +909,49 @@ Proof.
   repeat split; auto. intros i p H L. destruct (Tm i p H) as [->| ->]; [|reflexivity].
   pose proof (b_class s B i CDone H) as [Y _]. specialize (Y eq_refl). lia.
 Qed.
+
+(* ---------- executions of run_sched are reachable (used for concrete witnesses) ---------- *)
+Lemma enabled_list_In s n : forall from i, In i (enabled_list s n from) -> enabled s i = true.
+Proof.
+  induction n as [|n IH]; intros from i H; cbn [enabled_list] in H; [contradiction|].
+  apply in_app_or in H. destruct H as [H|H].
+  - destruct (enabled s from) eqn:E; [|contradiction]. destruct H as [<-|[]]. exact E.
+  - eapply IH, H.
+Qed.
+
+Lemma run_sched_reachable ops fuel : forall s sched tr, reachable ops s ->
+  reachable ops (fst (run_sched fuel s sched tr)).
+Proof.
+  induction fuel as [|f IH]; intros s sched tr R; cbn [run_sched]; [exact R|].
+  destruct (all_enabled s) as [|e0 en] eqn:E; [exact R|].
+  set (k := match sched with [] => 0%Z | x :: _ => Z.abs x end).
+  set (i := nth (Z.to_nat (k mod zlen (e0 :: en))) (e0 :: en) 0).
+  assert (EN : enabled s i = true).
+  { apply (enabled_list_In s (length (thrs s)) 0). fold (all_enabled s). rewrite E. apply nth_In.
+    unfold zlen. assert (0 < Z.of_nat (length (e0 :: en)))%Z by (cbn [length]; lia).
+    pose proof (Z.mod_pos_bound k (Z.of_nat (length (e0 :: en))) H). lia. }
+  pose proof (r_step ops s i R EN) as R1. unfold step in R1.
+  destruct (tstep s i) as [[s1 p] e]. cbn [fst] in R1. apply IH. exact R1.
+Qed.
+
+Definition terminalb (s : st) : bool := forallb (fun p => negb (unfinished p)) (thrs s).
+Lemma terminalb_sound s : terminalb s = true -> terminal s.
+Proof.
+  unfold terminalb, terminal. intros H i p Hp. rewrite forallb_forall in H.
+  specialize (H p (nth_error_In _ _ Hp)). destruct p; cbn in H; try discriminate; auto.
+Qed.
+
+Definition final_state (ops : list (list Z)) : st :=
+  fst (run_sched (length (flat_map decode_sched ops) + 600) (init ops) (flat_map decode_sched ops) []).
+Lemma final_reachable ops : reachable ops (final_state ops).
+Proof. apply run_sched_reachable, r_init. Qed.
+
+(* the waiter of a bare-handle closure (resume(suspend_point), co_await pool(awaitable)) IS forgotten when the
+   closure is destroyed un-run: the faithful model refutes "never forgotten" for these two kinds *)
+Definition forgotten (s : st) : bool :=
+  existsb (fun x => negb (owned (ck x)) && Nat.eqb (cran x) 0 && Nat.eqb (ccanc x) 0 && Nat.eqb (cdrop x) 1) (clos s).
+
+Lemma bare_forgotten_witness :
+  let ops := [[1;1]; [3;0]; [2;0;4;0;0]; [2;0;1;0;0]]%Z in
+  terminalb (final_state ops) = true /\ forgotten (final_state ops) = true.
+Proof. vm_compute. split; reflexivity. Qed.
